@@ -25,6 +25,7 @@ CHECKS = {
  "C16": dict(engine="symtorch+z3", tech="structural induction: one solver-checked step per operator overload with stub children returning arbitrary symbolic vectors; z3 on residuals; random trees vs interpreter", design="2/C16"),
  "C20": dict(engine="symtorch+z3", tech="symbolic execution of constructors / reinitialise / fit guards / a symbolic SGD training run with a symbolic random tape; identities decided by z3, identity/independence facts executed", design="2/C20"),
  "C06": dict(engine="symtorch+z3", tech="real fit loop executed with symbolic parameters, symbolic learning rate and scripted randomness; per-parameter .grad and SGD update identities decided by z3 on residuals; optimizer/scheduler call counts by pathfork", design="2/C06"),
+ "C19": dict(engine="symtorch+z3", tech="index routine on symbolic rows (linear identity by z3), site order via symbolic psi rotation vs Kronecker reference; pathfork enumeration of spaces / indices / basis-letter patterns within the bound", design="2/C19"),
  "C15": dict(engine="symtorch+z3", tech="symbolic execution of every cplx function vs complex-scalar arithmetic; z3 on residuals", design="2/C15"),
 }
 CHECKS.update(json.load(open(os.path.join(HERE, "bin", "manifest_extra.json"))) if os.path.exists(os.path.join(HERE, "bin", "manifest_extra.json")) else {})
